@@ -504,6 +504,21 @@ def _describe(actions):
     return [[a.dest, "opt" if a.option_strings else "pos"] for a in actions]
 
 
+def _declared_defaults(case):
+    dests = [a[1] for a in FORESTS[case["forest"]]["adds"]]
+    out, seen, dc_seen = [], set(), False
+    for d in case["decls"]:
+        if d[0] == "dc":
+            dc_seen = True
+        elif d[0] == "defaults":
+            for k in d[1]:
+                kind = "routed" if (dc_seen and k in dests) else "default"
+                if (k, kind) not in seen:
+                    seen.add((k, kind))
+                    out.append([k, kind])
+    return out
+
+
 def _forest_of(p):
     import argparse
     import dataclasses
@@ -531,7 +546,7 @@ def _run_one(case):
     from implutil import outcome_of, reset_simple_parsing_state
 
     reset_simple_parsing_state()
-    obs = dict(pre=None, parents=[], plain=[], forest=[], fields_obs=[], gen=[], installed=None, groups=[],
+    obs = dict(pre=None, parents=[], plain=[], forest=[], fields_obs=[], gen=[], defaults_obs=None, installed=None, groups=[],
                oracle=None, ap_first=None, ap_none=None, ap_late=None, sp=None, standins_from="own")
     grec_sp, grec_tw = [], []
     rp = outcome_of(lambda: _mk_parents(case))
@@ -578,7 +593,11 @@ def _run_one(case):
         if q is not None:
             own_before = [a for a in q._actions[:n_before] if id(a) not in parent_ids and not isinstance(a, argparse._HelpAction)]
             standins = [a for a in q._actions[n_before:] if id(a) not in parent_ids]
-            obs["plain"] = _describe(own_before) + [[k, "default"] for k in q._defaults if k not in parent_dkeys]
+            # parser-level defaults as DECLARED: an entry for the destination of an already existing wrapper is `routed`
+            # (the model decides with the regenerated set_defaults fact whether it reaches parser._defaults)
+            obs["plain"] = _describe(own_before) + _declared_defaults(case)
+            if q is p:
+                obs["defaults_obs"] = sorted(p._defaults)
             obs["gen"] = [a.dest for a in standins]
             obs["forest"], obs["fields_obs"] = _forest_of(q)
             if sp_parents and q is p:
@@ -647,7 +666,7 @@ def _violations(case, obs):
     has_sg = any(f["subgroup"] for w in obs["forest"] for f in w["fields"])
     sup_tops = [d for w in obs["forest"] if not w["nested"] and w["suppress"] for d in w["dests"]]
     extra = tops + (["subgroups"] if has_sg else [])
-    declared = [d for d, _ in obs["parents"] + obs["plain"]]
+    declared = [d for d, k in obs["parents"] + obs["plain"] if k != "routed"]
     if any(k in extra for k in declared):
         return out  # names not disjoint: the property is silent
     if twin[0] == "ok":
@@ -766,7 +785,7 @@ def _err(o):
 
 
 def _acts(xs):
-    kind = {"opt": "KOpt", "pos": "KPos", "default": "KDefault"}
+    kind = {"opt": "KOpt", "pos": "KPos", "default": "KDefault", "routed": "KRouted"}
     return clist([f"mkact {cstr(d)} {kind[k]}" for d, k in xs])
 
 
@@ -799,7 +818,8 @@ def to_coq(case, obs):
         names.append(runs[txt])
     lets = "".join(f"let {name} := {txt} in\n  " for txt, name in runs.items())
     return (f"({lets}mkcase {cbool(case['mode'] == 'args')} {pre} {_acts(obs['parents'])} {_acts(obs['plain'])}\n  {clist(ws)}\n  "
-            f"{clist([cstrlist(x) for x in obs['fields_obs']])} {cstrlist(obs['gen'])} {inst}\n  "
+            f"{clist([cstrlist(x) for x in obs['fields_obs']])} {cstrlist(obs['gen'])} "
+            f"{'None' if obs['defaults_obs'] is None else copt(cstrlist(obs['defaults_obs']))} {inst}\n  "
             f"{' '.join(names)}\n  {_run(obs['sp'])}\n  {clist(gs)})")
 
 
